@@ -19,7 +19,7 @@ func init() {
 		Technique: "storage-layout analysis: component kinds of every Find prefix and every Put key (constant, fixed-width, variable-length integer, caller-supplied bytes) — R-prefix rule, constant-prefix family disjointness, put/get key-term agreement; must-facts for the gates, the id length bound and the cleanup deltas",
 		Explanation: "D1 R-prefix: a Find whose prefix ends in a variable-length integer encoding while stored keys of that family continue after it also enumerates keys of other integers (bytes(1) is a prefix of bytes(257)); every scan of reputation, audit, container estimations, neofsid and the configuration maps is classified. Constant scan prefixes are family-disjoint. " +
 			"D2 put/get agreement: every getter builds its key/prefix from the same component terms as the putter (reputation storageID, audit header ID, estimation key, owner keys, config‖key); GetContainerSize accepts exactly the ids ListContainerSizes can return (length bound = prefix + container id). " +
-			"D3 gates: putContainerSize under W(key) ∧ membership of that key in the previous epoch's network map, audit.put under W(header.From) ∧ header.From ∈ Inner Ring. D4 cleanup: estimations are removed exactly when epoch − e > 3 (per node) resp. > 4 (global), with the key rebuilt by the same components as the putter. D5 neofsid.AddKey/RemoveKey act on every submitted key (loop-exhaustive rule); netmap.SetConfig, reputation.Put and audit.Put store on every normal return. D6 the global estimation cleanup examines every scanned key (scan left only on exhaustion; an iteration goes round the delete only with epoch − e ≤ 4). M: the reputation value counter continues from the stored one.",
+			"D3 gates: putContainerSize under W(key) ∧ membership of that key in the previous epoch's network map, audit.put under W(header.From) ∧ header.From ∈ Inner Ring. D4 cleanup: estimations are removed exactly when epoch − e > 3 (per node) resp. > 4 (global), with the key rebuilt by the same components as the putter. D5 neofsid.AddKey/RemoveKey act on every submitted key (loop-exhaustive rule); netmap.SetConfig, reputation.Put and audit.Put store on every normal return. D6 the global estimation cleanup examines every scanned key (scan left only on exhaustion; an iteration goes round the delete only with epoch − e ≤ 4). M: the reputation value counter continues from the stored one. R7 collect-every: in the list getters and their same-package helpers a loop driven by iterator.Next that accumulates does so in every iteration (or skips only an item already in the map it fills).",
 		NotCovered: "multiset equality of listings with a model over interleavings. KNOWN FINDINGS (genuine, recorded in known_findings.json): the four scans that end in the variable-length epoch encoding.",
 		Run:        runC20,
 	})
@@ -65,6 +65,7 @@ func kindsOf(t *Term) []string {
 
 func runC20(cx *CheckCtx) {
 	w := cx.W
+	checkCollectEvery(cx)
 	nScans := 0
 	for _, cn := range []string{"reputation", "audit", "container", "neofsid", "netmap", "neofs"} {
 		c := cx.contract(cn)
@@ -600,4 +601,141 @@ func executedAtEveryExit(a *Analysis, sites ...*Site) bool {
 		}
 	}
 	return true
+}
+
+// checkCollectEvery: the list getters of the exact stores return *every* item
+// of their scan. In the getter and in the same-package helpers it calls, a
+// loop driven by iterator.Next that accumulates (append, map insert) does so
+// in every iteration: the accumulating block dominates every way round the
+// loop. A filter added to such a loop (length of the rest of the key, a type
+// test, …) silently drops stored values from the answer.
+func checkCollectEvery(cx *CheckCtx) {
+	w := cx.W
+	roots := map[string][]string{
+		"reputation": {"Get", "GetByID", "ListByEpoch"},
+		"audit":      {"Get", "List", "ListByEpoch", "ListByCID", "ListByNode"},
+		"neofsid":    {"Key"},
+		"container":  {"GetContainerSize", "ListContainerSizes"},
+	}
+	n := 0
+	for _, cn := range []string{"audit", "container", "neofsid", "reputation"} {
+		seen := map[*ssa.Function]bool{}
+		var work []*ssa.Function
+		for _, name := range roots[cn] {
+			if m := cx.method(cn, name); m != nil {
+				work = append(work, m.Fn)
+			}
+		}
+		for len(work) > 0 {
+			fn := work[0]
+			work = work[1:]
+			if seen[fn] || fn.Blocks == nil {
+				continue
+			}
+			seen[fn] = true
+			for _, b := range fn.Blocks {
+				for _, ins := range b.Instrs {
+					if c, ok := ins.(ssa.CallInstruction); ok {
+						if cal := c.Common().StaticCallee(); cal != nil && cal.Pkg == fn.Pkg && len(seen) < 40 {
+							work = append(work, cal)
+						}
+					}
+				}
+			}
+			// loops whose test is iterator.Next
+			for _, hdr := range fn.Blocks {
+				ifi, isIf := hdr.Instrs[len(hdr.Instrs)-1].(*ssa.If)
+				if !isIf {
+					continue
+				}
+				c, isCall := ifi.Cond.(*ssa.Call)
+				if !isCall {
+					continue
+				}
+				if cal := c.Common().StaticCallee(); cal == nil || fq(cal) != "iterator.Next" {
+					continue
+				}
+				var back []*ssa.BasicBlock
+				for _, p := range hdr.Preds {
+					if hdr.Dominates(p) {
+						back = append(back, p)
+					}
+				}
+				if len(back) == 0 {
+					continue
+				}
+				in := loopBlocks(hdr)
+				var acc []*ssa.BasicBlock
+				for blk := range in {
+					for _, ins := range blk.Instrs {
+						switch x := ins.(type) {
+						case *ssa.MapUpdate:
+							acc = append(acc, blk)
+						case *ssa.Call:
+							if _, _, isApp := appendOf(x); isApp {
+								acc = append(acc, blk)
+							}
+						}
+					}
+				}
+				if len(acc) == 0 {
+					continue // not a collecting loop
+				}
+				ok := false
+				for _, ab := range acc {
+					every := true
+					for _, p := range back {
+						if !ab.Dominates(p) {
+							every = false
+						}
+					}
+					if every {
+						ok = true
+					}
+				}
+				if !ok {
+					// a set: the item is skipped only when it is already in the map the loop fills (the
+					// membership question is asked about the same map and the same key that is inserted)
+					for blk := range in {
+						for _, ins := range blk.Instrs {
+							mu, isMU := ins.(*ssa.MapUpdate)
+							if !isMU {
+								continue
+							}
+							for q := range in {
+								for _, qi := range q.Instrs {
+									switch x := qi.(type) {
+									case *ssa.Lookup:
+										if x.X == mu.Map && x.Index == mu.Key && x.CommaOk {
+											ok = true
+										}
+									case *ssa.Call:
+										hasMap, hasKey := false, false
+										for _, a := range x.Common().Args {
+											if mi, isMI := a.(*ssa.MakeInterface); isMI {
+												a = mi.X
+											}
+											if a == mu.Map {
+												hasMap = true
+											}
+											if a == mu.Key {
+												hasKey = true
+											}
+										}
+										if hasMap && hasKey {
+											ok = true
+										}
+									}
+								}
+							}
+						}
+					}
+				}
+				n++
+				cx.decide(ok, "collect-every", cn+"."+fn.Name()+"@"+blockPos(w, hdr), "every item of the scan is collected (a set: unless it is already in)", cn+"."+fn.Name()+" collects the items of its scan only in some iterations: stored values that the filter does not let through are missing from the answer although they were accepted and stored", blockPos(w, hdr))
+			}
+		}
+	}
+	cx.count("collecting_loops", n)
+	cx.floor("collecting_loops", 4)
 }
